@@ -1048,6 +1048,21 @@ func (g *GenState) withRefs(a Action) Action {
 
 const maxI64 = int64(^uint64(0) >> 1)
 
+// hugePrices: pricing texts whose amount sits at the limits of the chain's integer (2^255-1) and
+// 18-decimal (2^255 / 10^18) types, where a product with the deposit multiple, a conversion from the
+// main unit or a conversion to a decimal no longer fits. Stateless validation accepts them.
+var hugePrices = []string{
+	`{"price":"57896044618658097711785492504343953926634992332820282019728792003956564819967stake"}`, // 2^255-1
+	`{"price":"1` + strings.Repeat("0", 76) + `stake"}`,
+	`{"price":"289480223093290488558927462521719769633174961664101410098643960019782824100stake"}`, // just above (2^255-1)/200
+	`{"price":"28948022309329048855892746252171976963317496166410141009864396001978282409984stake"}`, // 2^254
+	`{"price":"57896044618658097711785492504343953926634992332820282019729stake"}`,                 // just above 2^255 / 10^18
+	`{"price":"1` + strings.Repeat("0", 59) + `stake"}`,
+	`{"price":"1` + strings.Repeat("0", 74) + `kstake"}`,
+	`{"price":"1` + strings.Repeat("0", 56) + `kstake"}`,
+	`{"price":"1` + strings.Repeat("0", 30) + `stake","promotions_by_volume":[{"volume":1,"discount":"0.999999999999999999"}]}`,
+}
+
 // genBoundaryMsg: messages with boundary shapes - empty coin lists, maximal provider lists, zero and
 // maximal numeric fields, empty optional strings, longest names. Most are meant to pass stateless
 // validation; what the handler does with them must never be a panic.
@@ -1065,10 +1080,16 @@ func (g *GenState) genBoundaryMsg(t *rapid.T) Action {
 		a.Pricing = pick(t, "b_pricing", []string{`{"price":"0stake"}`, `{"price":"9000000000000000000stake"}`, `{"price":"0.000000000000000001stake"}`,
 			`{"price":"1stake","promotions_by_time":[],"promotions_by_volume":[]}`, `{"price":"1stake","promotions_by_volume":[{"volume":9223372036854775807,"discount":"0.1"}]}`,
 			`{"price":"1atom"}`, `{"price":"1stake","promotions_by_time":null}`})
+		if pct(t, "b_huge_price", 30) {
+			a.Pricing = pick(t, "b_huge", hugePrices)
+		}
 	case KUpdateBind:
 		a.Deposit = pick(t, "b_deposit", bigCoins)
 		a.QoS = pick(t, "b_qos", []uint64{0, ^uint64(0), 1})
 		a.Pricing = pick(t, "b_pricing", []string{"", `{"price":"0stake"}`, `{"price":"9000000000000000000stake"}`, `{"price":"1atom"}`})
+		if pct(t, "b_huge_price", 40) {
+			a.Pricing = pick(t, "b_huge", hugePrices)
+		}
 		a.Options = pick(t, "b_options", []string{"{}", "null"})
 	case KEnable:
 		a.Deposit = pick(t, "b_deposit", bigCoins)
